@@ -18,6 +18,14 @@ pub fn cap_mult() -> u64 {
     std::env::var("VX_CAP_MULT").ok().and_then(|s| s.parse().ok()).unwrap_or(1)
 }
 
+/// A wall cap of `secs` seconds, scaled by VX_CAP_MULT and divided by
+/// VX_CAP_DIV (default 1; for a time-boxed rehearsal of a thorough run: every
+/// phase starts and is cut early, the caps are reported as hit).
+pub fn cap_secs(secs: u64) -> u64 {
+    let div: u64 = std::env::var("VX_CAP_DIV").ok().and_then(|s| s.parse().ok()).unwrap_or(1).max(1);
+    (secs * cap_mult() / div).max(5)
+}
+
 fn seq_assumptions() -> Vec<String> {
     vec![
         "worker pinned to the eager policy: wait_worker_idle() after every operation (other worker timings are schedx's job)".into(),
@@ -131,7 +139,7 @@ fn spec(prop: &str, alpha: Alpha, depth: usize, cfgs: Vec<Cfg>, oracles: Oracles
         refused_level: 0,
         roots_skip_inapplicable: false,
         oracles,
-        wall_cap: Duration::from_secs(cap_s * cap_mult()),
+        wall_cap: Duration::from_secs(cap_secs(cap_s)),
         grid_probes: false,
         roots: vec![],
     }
@@ -1373,7 +1381,7 @@ fn reader_shard(tier: &str, shard: usize, of: usize) -> i32 {
     let mut vios: Vec<crate::report::Violation> = vec![];
     let mut machinery: Option<String> = None;
     let mut samples: Vec<Value> = vec![];
-    let budget_s: u64 = std::env::var("VX_SHARD_WALL_S").ok().and_then(|s| s.parse().ok()).unwrap_or(cap_mult() * if tier == "thorough" { 1500 } else { 45 });
+    let budget_s: u64 = std::env::var("VX_SHARD_WALL_S").ok().and_then(|s| s.parse().ok()).unwrap_or(cap_secs(if tier == "thorough" { 1500 } else { 45 }));
     let deadline = std::time::Instant::now() + Duration::from_secs(budget_s);
     let mut skipped = 0u64;
     for (i, s) in specs.iter().enumerate() {
@@ -1422,7 +1430,7 @@ pub fn sched_shard(prop: &str, tier: &str, shard: usize, of: usize) -> i32 {
     let mut vios: Vec<crate::report::Violation> = vec![];
     let mut machinery: Option<String> = None;
     let mut samples: Vec<Value> = vec![];
-    let budget_s: u64 = std::env::var("VX_SHARD_WALL_S").ok().and_then(|s| s.parse().ok()).unwrap_or(cap_mult() * if tier == "thorough" { 3000 } else { 45 });
+    let budget_s: u64 = std::env::var("VX_SHARD_WALL_S").ok().and_then(|s| s.parse().ok()).unwrap_or(cap_secs(if tier == "thorough" { 3000 } else { 45 }));
     let deadline = std::time::Instant::now() + Duration::from_secs(budget_s);
     let mut skipped = 0u64;
     for (i, s) in specs.iter().enumerate() {
@@ -1469,7 +1477,7 @@ fn c14_shard(tier: &str, shard: usize, of: usize) -> i32 {
     let mut vios: Vec<crate::report::Violation> = vec![];
     let mut machinery: Option<String> = None;
     let mut samples: Vec<Value> = vec![];
-    let budget_s: u64 = std::env::var("VX_SHARD_WALL_S").ok().and_then(|s| s.parse().ok()).unwrap_or(cap_mult() * if tier == "thorough" { 3000 } else { 45 });
+    let budget_s: u64 = std::env::var("VX_SHARD_WALL_S").ok().and_then(|s| s.parse().ok()).unwrap_or(cap_secs(if tier == "thorough" { 3000 } else { 45 }));
     let deadline = std::time::Instant::now() + Duration::from_secs(budget_s);
     let mut skipped = 0u64;
     for (i, s) in specs.iter().enumerate() {
